@@ -1,11 +1,14 @@
 #!/bin/sh
-# usage: sh tools_seeded_import.sh <property> [checks]
-# imports /tmp/seed-<property>/seeded/{1,2} into /verif/seeded/, confirms
-# them in the scratch worktree and runs the owning check against each
-p=$1; checks=${2:-$1}
+# usage: sh tools_seeded_import.sh <property> [round] [checks]
+# imports /tmp/seed<round>-<property>/seeded/{1,2} into /verif/seeded/ (round
+# 2 becomes <property>-3 and -4), confirms them in the scratch worktree and
+# runs the owning check against each
+p=$1; round=${2:-1}; checks=${3:-$1}
+if [ "$round" = "1" ]; then wt=/tmp/seed-$p; off=0; else wt=/tmp/seed$round-$p; off=$(( (round-1)*2 )); fi
 for k in 1 2; do
-  mkdir -p /verif/seeded/$p-$k
-  cp /tmp/seed-$p/seeded/$k/* /verif/seeded/$p-$k/
-  sh /verif/tools_seeded_verify.sh $p-$k /tmp/seed-$p
+  id=$p-$((k+off))
+  mkdir -p /verif/seeded/$id
+  cp $wt/seeded/$k/* /verif/seeded/$id/
+  sh /verif/tools_seeded_verify.sh $id $wt
 done
-for k in 1 2; do echo "== $p-$k"; sh /verif/tools_seeded.sh $p-$k "$checks"; done
+for k in 1 2; do id=$p-$((k+off)); echo "== $id"; sh /verif/tools_seeded.sh $id "$checks"; done
